@@ -13,3 +13,16 @@ Print Assumptions C14_dual_certificate_sound.
 Theorem C14_feasible_meaning : stmt_feasible_meaning.
 Proof. exact feasible_meaning. Qed.
 Print Assumptions C14_feasible_meaning.
+
+(* the vehicle count is the dominant term of the objective of the circulation: the cost of a depot edge is positive
+   whenever something has to be covered (also if every cost rate is zero), and it is at least any cost rate times three
+   planning horizons per required vehicle; the pre-repair formula gave 0 for all-zero rates *)
+Theorem C14_spawning_cost_positive : stmt_spawning_cost_positive.
+Proof. exact spawning_cost_positive. Qed.
+Print Assumptions C14_spawning_cost_positive.
+Theorem C14_spawning_cost_dominates_rates : stmt_spawning_cost_dominates_rates.
+Proof. exact spawning_cost_dominates_rates. Qed.
+Print Assumptions C14_spawning_cost_dominates_rates.
+Theorem C14_pre_repair_spawning_cost_zero : stmt_spawning_cost_prefix_zero.
+Proof. exact spawning_cost_prefix_zero. Qed.
+Print Assumptions C14_pre_repair_spawning_cost_zero.
